@@ -9,7 +9,6 @@
 //!     and the store is closed.
 
 use std::cell::{Cell, RefCell};
-use std::collections::HashMap;
 use std::sync::atomic::{AtomicBool, AtomicU64, Ordering};
 use std::sync::{Arc, Mutex};
 use std::time::Duration;
@@ -404,12 +403,59 @@ fn jitter_always() {
 // ---------------------------------------------------------------------------------------------
 // RedbStore::close with operations in flight
 
+/// The run whose storage backend may log (stragglers of earlier runs stay silent).
+static CURRENT_RUN: AtomicU64 = AtomicU64::new(u64::MAX);
+
+/// redb storage backend handed to `RedbStore::new`: an in-memory backend that logs every access of a
+/// blocking database task ("db" lines, drawn from the same sequence counter) and stretches writes and
+/// syncs by a seeded 0.1 - 1.5 ms.  This is the harness' own view of "a blocking task is still running",
+/// independent of the CounterGuard bookkeeping under test.
+#[derive(Debug)]
+struct LoggingBackend {
+    inner: redb::backends::InMemoryBackend,
+    run: u64,
+}
+
+impl LoggingBackend {
+    fn note(&self, op: &'static str, slow: bool) {
+        if CURRENT_RUN.load(Ordering::SeqCst) != self.run {
+            return;
+        }
+        log(json!({"name": "db", "op": op}));
+        if slow {
+            std::thread::sleep(Duration::from_micros(100 + rng_next() % 1400));
+        }
+    }
+}
+
+impl redb::StorageBackend for LoggingBackend {
+    fn len(&self) -> std::result::Result<u64, std::io::Error> {
+        self.inner.len()
+    }
+    fn read(&self, offset: u64, len: usize) -> std::result::Result<Vec<u8>, std::io::Error> {
+        self.note("read", false);
+        self.inner.read(offset, len)
+    }
+    fn set_len(&self, len: u64) -> std::result::Result<(), std::io::Error> {
+        self.note("set_len", false);
+        self.inner.set_len(len)
+    }
+    fn sync_data(&self, eventual: bool) -> std::result::Result<(), std::io::Error> {
+        self.note("sync", true);
+        let r = self.inner.sync_data(eventual);
+        self.note("sync-done", false);
+        r
+    }
+    fn write(&self, offset: u64, data: &[u8]) -> std::result::Result<(), std::io::Error> {
+        self.note("write", true);
+        self.inner.write(offset, data)
+    }
+}
+
 pub fn record_redb(args: &Args) -> Summary {
     use celestia_types::test_utils::ExtendedHeaderGenerator;
     use futures::FutureExt;
     use lumina_node::store::{RedbStore, Store};
-    use std::future::Future;
-    use std::pin::Pin;
 
     let mut s = Summary::new("redbclose");
     let seed = args.opt_u64("seed", 1);
@@ -430,81 +476,107 @@ pub fn record_redb(args: &Args) -> Summary {
         let prefill = 4 + (rng_next() % 8) as usize;
         let choices: Vec<u64> = (0..nops).map(|_| rng_next()).collect();
         let hs = headers.clone();
-        let outcome = rt.block_on(async {
-            let store = RedbStore::in_memory().await.unwrap();
+        let (outcome, db) = rt.block_on(async {
+            let backend = LoggingBackend { inner: redb::backends::InMemoryBackend::new(), run };
+            let db = Arc::new(redb::Database::builder().create_with_backend(backend).expect("create db"));
+            CURRENT_RUN.store(run, Ordering::SeqCst);
+            let store = RedbStore::new(db.clone()).await.unwrap();
             store.insert(hs[..prefill].to_vec()).await.unwrap();
+            let store = Arc::new(store);
             let mut next = prefill;
-            {
-                let mut futs: Vec<Pin<Box<dyn Future<Output = ()> + Send + '_>>> = Vec::new();
-                for c in &choices {
-                    let st = &store;
-                    let fut: Pin<Box<dyn Future<Output = ()> + Send + '_>> = match c % 6 {
-                        0 => {
-                            let h = hs[next.min(hs.len() - 1)].clone();
-                            next += 1;
-                            Box::pin(async move { let _ = st.insert(h).await; })
-                        }
-                        1 => Box::pin(async move { let _ = st.get_by_height(1 + (c >> 8) % 8).await; }),
-                        2 => Box::pin(async move { let _ = st.get_head().await; }),
-                        3 => Box::pin(async move { let _ = st.mark_as_sampled(1 + (c >> 8) % 4).await; }),
-                        4 => Box::pin(async move { let _ = st.get_stored_header_ranges().await; }),
-                        _ => Box::pin(async move { let _ = st.update_sampling_metadata(1 + (c >> 8) % 4, vec![]).await; }),
-                    };
-                    futs.push(fut);
+            let mut handles = Vec::new();
+            for c in &choices {
+                let c = *c;
+                let st = store.clone();
+                let h = hs[next.min(hs.len() - 1)].clone();
+                if c % 6 == 0 {
+                    next += 1;
                 }
-                // start every operation (first poll issues the spawn_blocking), finish some, abandon the rest
-                for (i, f) in futs.iter_mut().enumerate() {
-                    let done = f.as_mut().now_or_never().is_some();
-                    if !done && choices[i] & 0x80 != 0 {
-                        f.await;
+                // one store operation (most of them write: their commit is what the backend sees)
+                let op = async move {
+                    match c % 6 {
+                        0 => { let _ = st.insert(h).await; }
+                        1 => { let _ = st.get_by_height(1 + (c >> 8) % 8).await; }
+                        2 => { let _ = st.mark_as_sampled(1 + (c >> 8) % 4).await; }
+                        3 => { let _ = st.mark_as_sampled(1 + (c >> 9) % 4).await; }
+                        4 => { let _ = st.get_stored_header_ranges().await; }
+                        _ => { let _ = st.update_sampling_metadata(1 + (c >> 8) % 4, vec![]).await; }
+                    }
+                };
+                let us = Duration::from_micros((c >> 24) % 400);
+                // how its caller goes away (or not) before the store is closed
+                match (c >> 16) % 6 {
+                    0 => handles.push(tokio::spawn(op)), // awaited to completion
+                    1 => {
+                        // worker task aborted mid-operation
+                        let jh = tokio::spawn(op);
+                        tokio::time::sleep(us).await;
+                        jh.abort();
+                        log(json!({"name": "caller_cancelled", "how": "abort"}));
+                        handles.push(jh);
+                    }
+                    2 => handles.push(tokio::spawn(async move {
+                        if tokio::time::timeout(us, op).await.is_err() {
+                            log(json!({"name": "caller_cancelled", "how": "timeout"}));
+                        }
+                    })),
+                    3 => handles.push(tokio::spawn(async move {
+                        tokio::select! {
+                            _ = op => {}
+                            _ = tokio::time::sleep(us) => { log(json!({"name": "caller_cancelled", "how": "select"})); }
+                        }
+                    })),
+                    _ => {
+                        // polled once (the blocking task is issued), then dropped
+                        let mut f = Box::pin(op);
+                        if f.as_mut().now_or_never().is_none() {
+                            log(json!({"name": "caller_cancelled", "how": "drop"}));
+                        }
+                        drop(f);
                     }
                 }
-            } // abandoned operations: their blocking tasks are still queued / running
+            }
+            for jh in handles {
+                let _ = jh.await; // an aborted task resolves once its future has been dropped
+            }
+            let store = Arc::try_unwrap(store).expect("every caller is gone");
             log(json!({"name": "closing"}));
             let r = tokio::time::timeout(bound, store.close()).await;
             log(json!({"name": "closed"}));
-            r.is_ok()
+            (r.is_ok(), db)
         });
-        // let the blocking tasks run out so that all their points land in this run's log
+        // let the blocking tasks run out: nothing new in the log for 30 ms
         let t0 = std::time::Instant::now();
+        let mut last = (LOG.lock().unwrap().len(), std::time::Instant::now());
         loop {
-            let (c, d) = {
-                let l = LOG.lock().unwrap();
-                (l.iter().filter(|(_, e)| e["name"] == "created").count(),
-                 l.iter().filter(|(_, e)| e["at"] == "counter.drop.2").count())
-            };
-            if c == d || t0.elapsed() > Duration::from_secs(10) {
+            std::thread::sleep(Duration::from_millis(2));
+            let n = LOG.lock().unwrap().len();
+            if n != last.0 {
+                last = (n, std::time::Instant::now());
+            }
+            if last.1.elapsed() > Duration::from_millis(30) || t0.elapsed() > Duration::from_secs(10) {
                 break;
             }
-            std::thread::sleep(Duration::from_millis(1));
         }
+        CURRENT_RUN.store(u64::MAX, Ordering::SeqCst); // dropping the database is the harness' own business
+        drop(db);
         let events = take_log();
         let created = events.iter().filter(|e| e["name"] == "created").count();
-        // guard numbers are handed out at drop time; a guard that never began to drop before `closed` has none
         let closed_at = events.iter().position(|e| e["name"] == "closed").unwrap();
         let closing_at = events.iter().position(|e| e["name"] == "closing").unwrap();
         tw.emit(json!({"name": "reset", "n": created, "run": run}));
         for e in &events {
-            match e["name"].as_str().unwrap() {
-                "guard" => tw.emit(e.clone()),
-                // `RedbStore::new`/each op never waits; only the final close does: keep the last wait only
-                "waiter" => tw.emit(e.clone()),
-                _ => {}
+            if matches!(e["name"].as_str().unwrap(), "guard" | "waiter" | "db" | "caller_cancelled") {
+                tw.emit(e.clone());
             }
         }
-        let in_flight = events[closing_at..].iter().filter(|e| e["name"] == "guard" && e["at"] == "counter.drop.0").count()
-            + {
-                // guards that began before `closing` but ended after it
-                let mut open: HashMap<u64, bool> = HashMap::new();
-                for e in &events[..closing_at] {
-                    if e["name"] == "guard" {
-                        open.insert(e["g"].as_u64().unwrap(), e["at"] != "counter.drop.2");
-                    }
-                }
-                open.values().filter(|v| **v).count()
-            };
-        s.case(PROP, (in_flight > 0).then(|| format!("{run}:{in_flight}:{created}")), || json!({"run": run, "guards": created, "in_flight_at_close": in_flight}));
-        s.add("redb_runs_with_work_in_flight_at_close", (in_flight > 0) as u64);
+        // blocking work in flight when close() was called - by the backend's own log, not by the guards
+        let db_after_closing = events[closing_at..].iter().filter(|e| e["name"] == "db").count();
+        let cancelled = events.iter().filter(|e| e["name"] == "caller_cancelled").count();
+        s.case(PROP, (db_after_closing > 0).then(|| format!("{run}:{db_after_closing}:{created}")),
+               || json!({"run": run, "guards": created, "callers_cancelled": cancelled, "db_accesses_after_close_was_called": db_after_closing}));
+        s.add("redb_runs_with_work_in_flight_at_close", (db_after_closing > 0) as u64);
+        s.add("redb_callers_cancelled", cancelled as u64);
         if !outcome {
             hangs += 1;
             s.violation(PROP, json!({"mode": "redb-close", "kind": "hang", "run": run, "seed": seed,
@@ -514,10 +586,15 @@ pub fn record_redb(args: &Args) -> Summary {
             }
             continue;
         }
+        let db_after_closed = events[closed_at..].iter().filter(|e| e["name"] == "db").count();
         let begun_before_closed = events[..closed_at].iter().filter(|e| e["name"] == "guard" && e["at"] == "counter.drop.0").count();
-        if begun_before_closed < created {
+        if db_after_closed > 0 {
             s.violation(PROP, json!({"mode": "redb-close", "kind": "early-return", "run": run, "seed": seed,
-                "why": format!("close() returned while {} of {created} blocking tasks had not finished", created - begun_before_closed),
+                "why": format!("close() returned while a blocking database task was still running ({db_after_closed} database accesses after the return, {cancelled} callers had been cancelled)"),
+                "events": events}));
+        } else if begun_before_closed < created {
+            s.violation(PROP, json!({"mode": "redb-close", "kind": "early-return", "run": run, "seed": seed,
+                "why": format!("close() returned while {} of {created} blocking tasks had not released their guard", created - begun_before_closed),
                 "events": events}));
         }
     }
